@@ -520,6 +520,11 @@ fn run_plan(env: &Env, rng: &mut StdRng, plan: &Plan, note: &str, stale_every: u
     if !SMALL_CACHE_CLASS.load(std::sync::atomic::Ordering::Relaxed) || max_reqs != usize::MAX {
         return; // (not for the plans with delayed answers)
     }
+    // the serialized child (NUM_CONCURRENT_RANGE_GETS = 1) takes every plan, the concurrent processes every second one
+    static PLAN_NO: std::sync::atomic::AtomicUsize = std::sync::atomic::AtomicUsize::new(0);
+    if PLAN_NO.fetch_add(1, std::sync::atomic::Ordering::Relaxed) % 2 == 1 && *cas_client::remote_client::NUM_CONCURRENT_RANGE_GETS > 1 {
+        return;
+    }
     let largest_fetch: u64 = plan.fetch.values().flatten().map(|f| {
         let x = plan.xorbs.iter().find(|x| f.url.contains(&x.path)).unwrap();
         x.chunks[f.range.start as usize..f.range.end as usize].iter().map(|c| c.len() as u64).sum::<u64>() + 4 * (f.range.end - f.range.start + 2) as u64
